@@ -76,3 +76,26 @@ def replay(witness, repo, verif):
         return run_targets(binary, [witness["target"]], witness.get("seed", 1), witness.get("count", 300000))
     finally:
         shutil.rmtree(scratch, ignore_errors=True)
+
+
+def sanity(repo, verif, targets, seed=1, count=100000):
+    """Thorough tier: (a) the real functions agree with the executable reference on `count` random inputs each on
+    the CURRENT tree, (b) the assumed num-bigint contract holds on a grid of operands.  Bounded tests, reported in
+    the evidence as such; a disagreement here means the transcription or an assumption is off, not that a proof
+    failed, so it never produces a VIOLATION (the caller turns it into exit 2)."""
+    scratch = tempfile.mkdtemp(prefix="gramwit.", dir="/var/tmp")
+    out = {}
+    try:
+        binary = build(repo, verif, scratch)
+        for t in list(targets) + ["bigint_contract"]:
+            t2 = TARGET_OF.get(t, t)
+            if t2 not in KNOWN and t2 != "bigint_contract":
+                continue
+            try:
+                r = subprocess.run([binary, t2, str(seed), str(count)], capture_output=True, text=True, timeout=600)
+                out[t2] = json.loads(r.stdout.strip().split("\n")[-1])
+            except Exception as e:
+                out[t2] = {"error": repr(e)}
+        return out
+    finally:
+        shutil.rmtree(scratch, ignore_errors=True)
